@@ -112,6 +112,124 @@ API = {
     "_PyTrash_cond": F("int"),
     "_PyTrash_end": F("void"),
     "visit": F("int"),
+    # ---- commonly used CPython API not (yet) called by the file: modelled
+    # so that a legitimate new call does not make the analysis fail closed
+    "PyObject_RichCompare": F("new", "null", python=True),
+    "PyObject_RichCompareBool": F("int", "neg", python=True),
+    "PyObject_SetAttr": F("int", "neg", python=True),
+    "PyObject_SetAttrString": F("int", "neg", python=True),
+    "PyObject_HasAttr": F("int", python=True),
+    "PyObject_HasAttrString": F("int", python=True),
+    "PyObject_DelAttr": F("int", "neg", python=True),
+    "PyObject_Str": F("new", "null", python=True),
+    "PyObject_Repr": F("new", "null", python=True),
+    "PyObject_Hash": F("int", "neg", python=True),
+    "PyObject_Length": F("int", "neg", python=True),
+    "PyObject_Size": F("int", "neg", python=True),
+    "PyObject_GetItem": F("new", "null", python=True),
+    "PyObject_SetItem": F("int", "neg", python=True),
+    "PyObject_DelItem": F("int", "neg", python=True),
+    "PyObject_GetIter": F("new", "null", python=True),
+    "PyIter_Next": F("new", "null-maybe", python=True),
+    "PyObject_CallObject": F("new", "null", python=True),
+    "PyObject_CallFunction": F("new", "null", python=True),
+    "PyObject_CallFunctionObjArgs": F("new", "null", python=True),
+    "PyObject_CallMethodObjArgs": F("new", "null", python=True),
+    "PyObject_CallNoArgs": F("new", "null", python=True),
+    "PyObject_CallOneArg": F("new", "null", python=True),
+    "PyObject_IsSubclass": F("int", "neg", python=True),
+    "PyObject_Not": F("int", "neg", python=True),
+    "PyType_IsSubtype": F("int"),
+    "Py_NewRef": F("new"),
+    "Py_XNewRef": F("new"),
+    "Py_CLEAR": F("void", python=True),
+    "Py_SETREF": F("void", python=True),
+    "Py_XSETREF": F("void", python=True),
+    "PyList_Append": F("int", "neg", oom=True),
+    "PyList_Insert": F("int", "neg", oom=True),
+    "PyList_GetItem": F("borrowed", "null"),
+    "PyList_GET_ITEM": F("borrowed"),
+    "PyList_SetItem": F("int", "neg", steals=(2,)),
+    "PyList_Size": F("int"),
+    "PyList_AsTuple": F("new", "null", oom=True),
+    "PyList_GetSlice": F("new", "null", oom=True),
+    "PyList_Sort": F("int", "neg", python=True),
+    "PyList_Reverse": F("int", "neg"),
+    "PyTuple_GetItem": F("borrowed", "null"),
+    "PyTuple_GET_ITEM": F("borrowed"),
+    "PyTuple_SetItem": F("int", "neg", steals=(2,)),
+    "PyTuple_Size": F("int"),
+    "PyTuple_GetSlice": F("new", "null", oom=True),
+    "PyDict_Contains": F("int", "neg", python=True),
+    "PyDict_GetItemString": F("borrowed"),
+    "PyDict_SetItemString": F("int", "neg"),
+    "PyDict_DelItemString": F("int", "neg"),
+    "PyDict_Keys": F("new", "null", oom=True),
+    "PyDict_Values": F("new", "null", oom=True),
+    "PyDict_Items": F("new", "null", oom=True),
+    "PyDict_Update": F("int", "neg", python=True),
+    "PyDict_Merge": F("int", "neg", python=True),
+    "PyDict_Clear": F("void", python=True),
+    "PyDict_SetDefault": F("borrowed", "null", python=True),
+    "PySet_New": F("new", "null", python=True),
+    "PySet_Add": F("int", "neg", python=True),
+    "PySet_Contains": F("int", "neg", python=True),
+    "PySet_Discard": F("int", "neg", python=True),
+    "PySequence_Tuple": F("new", "null", python=True),
+    "PySequence_Size": F("int", "neg", python=True),
+    "PySequence_Length": F("int", "neg", python=True),
+    "PySequence_GetItem": F("new", "null", python=True),
+    "PySequence_Check": F("int"),
+    "PySequence_Fast": F("new", "null", python=True),
+    "PyMapping_Check": F("int"),
+    "PyMapping_GetItemString": F("new", "null", python=True),
+    "PyNumber_Float": F("new", "null", python=True),
+    "PyNumber_Check": F("int"),
+    "PyNumber_Add": F("new", "null", python=True),
+    "PyIndex_Check": F("int"),
+    "PyLong_AsSsize_t": F("int", "neg1-occurred", python=True),
+    "PyLong_AsUnsignedLong": F("int", "neg1-occurred"),
+    "PyLong_AsLongLong": F("int", "neg1-occurred", python=True),
+    "PyLong_AsLongAndOverflow": F("int", "neg1-occurred", python=True),
+    "PyLong_FromSsize_t": F("new", "null", oom=True),
+    "PyLong_FromLongLong": F("new", "null", oom=True),
+    "PyLong_FromSize_t": F("new", "null", oom=True),
+    "PyBool_FromLong": F("new"),
+    "PyFloat_AsDouble": F("double", "neg1-occurred", python=True),
+    "PyUnicode_AsUTF8": F("ptr", "null"),
+    "PyUnicode_FromFormat": F("new", "null", oom=True),
+    "PyUnicode_Compare": F("int", "neg1-occurred"),
+    "PyUnicode_CompareWithASCIIString": F("int"),
+    "PyUnicode_Check": F("int"),
+    "PyUnicode_Tailmatch": F("int", "neg"),
+    "PyUnicode_Substring": F("new", "null", oom=True),
+    "PyUnicode_Join": F("new", "null", python=True),
+    "PyUnicode_InternFromString": F("new", "null", oom=True),
+    "PyErr_SetNone": F("void", sets_error=True),
+    "PyErr_NoMemory": F("null", "null", sets_error=True),
+    "PyErr_BadInternalCall": F("void", sets_error=True),
+    "PyErr_BadArgument": F("int", "zero", sets_error=True),
+    "PyErr_GivenExceptionMatches": F("int"),
+    "PyErr_WarnFormat": F("int", "neg", python=True),
+    "PyErr_Print": F("void", python=True),
+    "PyErr_WriteUnraisable": F("void", python=True),
+    "PyArg_ParseTupleAndKeywords": F("int", "zero"),
+    "PyArg_UnpackTuple": F("int", "zero"),
+    "PyWeakref_NewRef": F("new", "null", oom=True),
+    "PyWeakref_GetObject": F("borrowed"),
+    "PyMem_Malloc": F("ptr", "null", oom=True),
+    "PyMem_Free": F("void"),
+    "PyObject_GC_Track": F("void"),
+    "PyObject_GC_Del": F("void"),
+    "PyObject_Free": F("void"),
+    "Py_EnterRecursiveCall": F("int", "neg"),
+    "Py_LeaveRecursiveCall": F("void"),
+    "PyGILState_Ensure": F("int"),
+    "PyGILState_Release": F("void"),
+    "PyEval_SaveThread": F("ptr"),
+    "PyEval_RestoreThread": F("void"),
+    "memcpy": F("ptr"), "memset": F("ptr"), "strlen": F("int"),
+    "strcmp": F("int"), "strncmp": F("int"),
     # calls through function pointers (modelled by field)
     "->tp_free": F("void"),
     "->tp_getattro": F("new", "null", python=True),
